@@ -83,6 +83,22 @@ def _extract_one(unit, cfg, outdir):
     return out
 
 
+def _tree_key():
+    import hashlib
+    h = hashlib.sha1()
+    h.update(REPO.encode())
+    h.update(str(os.path.getmtime(EXTRACT)).encode())
+    for cmd in (["git", "-C", REPO, "rev-parse", "HEAD"], ["git", "-C", REPO, "diff", "HEAD"],
+                ["git", "-C", REPO, "ls-files", "--others", "--exclude-standard"]):
+        h.update(_run(cmd).stdout.encode())
+    for f in _run(["git", "-C", REPO, "ls-files", "--others", "--exclude-standard"]).stdout.split():
+        try:
+            h.update(open(os.path.join(REPO, f), "rb").read())
+        except OSError:
+            pass
+    return h.hexdigest()[:20]
+
+
 def extract(configs, jobs=None):
     """Returns (scratch_dir, {cfg: [json paths]}, stats). Caller removes scratch_dir."""
     if not os.path.exists(EXTRACT):
@@ -94,12 +110,33 @@ def extract(configs, jobs=None):
         outdir = os.path.join(scratch, "ast")
         os.makedirs(outdir)
         jobs = jobs or (os.cpu_count() or 4)
-        tasks = [(u, c) for c in configs for u in units]
+        res = {}
+        cache = os.environ.get("SC3D_DEV_CACHE")      # development sweeps only; never set by a registered command
+        key = _tree_key() if cache else None
+        todo = []
+        for c in configs:
+            cdir = os.path.join(cache, "%s_cm%d_dm%d" % (key, c[0], c[1])) if cache else None
+            if cdir and os.path.isdir(cdir):
+                for f in sorted(os.listdir(cdir)):
+                    os.link(os.path.join(cdir, f), os.path.join(outdir, f))
+                    res.setdefault(c, []).append(os.path.join(outdir, f))
+            else:
+                todo.append(c)
+        tasks = [(u, c) for c in todo for u in units]
         with ThreadPoolExecutor(max_workers=jobs) as ex:
             outs = list(ex.map(lambda t: _extract_one(t[0], t[1], outdir), tasks))
-        res = {}
         for (u, c), o in zip(tasks, outs):
             res.setdefault(c, []).append(o)
+        if cache:
+            for c in todo:
+                cdir = os.path.join(cache, "%s_cm%d_dm%d" % (key, c[0], c[1]))
+                tmp = tempfile.mkdtemp(prefix="tmp.", dir=cache)
+                for o in res[c]:
+                    shutil.copy(o, os.path.join(tmp, os.path.basename(o)))
+                try:
+                    os.rename(tmp, cdir)
+                except OSError:
+                    shutil.rmtree(tmp, ignore_errors=True)
         stats = {"units": len(units), "configs": [list(c) for c in configs], "extract_wall_s": round(time.time() - t0, 2)}
         return scratch, res, stats
     except BaseException:
